@@ -44,6 +44,14 @@ def _flags(R, G, t, p):
 def _cases(R, G, t, n):
     out = []
     for k in range(n):
+        if k % 7 == 6:
+            # an ABSOLUTE pattern in front of a relative one whose first part is magic and which has two or more parts (state kept per
+            # pattern must be reset for every pattern: seeded change C05j set "the pattern is absolute" only for literal-first patterns)
+            names = sorted(t.names) or ['a']
+            p = [t.root + '/' + R.choice(['*', G.escape(R.choice(names)), '*/*']), R.choice(['*/*', '**/' + G.escape(R.choice(names)), '*/*/*', '?*/*', '**/*'])]
+            fl = (_flags(R, G, t, ' '.join(p)) | G.GLOBSTAR) & ~(G.NOUNIQUE | G.MATCHBASE)
+            out.append(K.Case(p, fl, None, R.choice(['root_dir', 'dir_fd', 'root_dir'])))
+            continue
         if k % 5 == 4:
             p = K.gen_pair(R, G, t)
             fl = _flags(R, G, t, ' '.join(p)) & ~(G.NOUNIQUE)
